@@ -16,7 +16,7 @@ LEVEL = 'proof'
 # taints that, placed before the forwarding call, oblige discovery not to
 # advertise the callee's parameters reachable through that star
 MUST_HIDE = {
-    'kwargs': {'rebind', 'augassign', 'mutate_method', 'mutate_item', 'pass_on', 'nonlocal'},
+    'kwargs': {'rebind', 'augassign', 'mutate_method', 'mutate_item', 'pass_on', 'nonlocal', 'inline'},
     'args': {'rebind', 'augassign', 'nonlocal'},
 }
 
@@ -38,8 +38,7 @@ def run_call(ns, obj, shape, p):
         ok = False
         for va in vas:
             for vk in vks:
-                g = obj.__func__.__globals__ if hasattr(obj, '__func__') else (
-                    obj.func.__globals__ if isinstance(obj, functools.partial) else obj.__globals__)
+                g = ns
                 g['OWN_ARGS'], g['OWN_KWARGS'], g['OWN_FLAG'] = va, vk, flag
                 n, ks = shape
                 try:
